@@ -82,8 +82,14 @@ def _last_open_scenario(trace_path):
         with open(trace_path, 'rb') as f:
             f.seek(0, 2)
             size = f.tell()
-            f.seek(max(0, size - 2_000_000))
-            tail = f.read().decode('utf-8', 'replace').split('\n')
+            back = 2_000_000
+            while True:       # a slim trace of a long history can be far larger than the first window
+                f.seek(max(0, size - back))
+                data = f.read()
+                if b'"ev":"Begin"' in data or back >= size:
+                    break
+                back *= 8
+            tail = data.decode('utf-8', 'replace').split('\n')
     except FileNotFoundError:
         return None, True
     for ln in tail:
